@@ -3,7 +3,16 @@ import vlib, tabgen, sim_common as sc
 
 COQ_TARGETS = ["Props/Properties_C12.vo"]
 META = dict(
-    text="proof (partial, small): the one arithmetic clause — timers are re-armed with an interval computed from the next due time — is proved for the keepalive "
+    text="proof (partial): (a) the reference graph of a component (sockets incl. TURN sockets layered on a base socket, local / remote candidates with their "
+         "sockptr, check pairs, triggered queue, selected pair, turn_candidate, incoming checks, socket sources, discovery and refresh items) is modelled in "
+         "Coq with the removal functions written statement for statement after the C (conn_check_prune_socket, nice_component_detach_socket, "
+         "refresh_prune_candidate, candidate removal, nice_component_remove_socket, conn_check_prune_stream, nice_component_close / tear-down); freeing = "
+         "removal from the live set, a use of a freed object / failed assertion is an explicit fault. Proved for ALL states: each removal step keeps every "
+         "reference pointing to a live object and removes every reference to what it frees; tear-down empties every container; remove_socket leaves no incoming "
+         "check on the socket. NOT proved: well-formedness preservation for the whole of nice_component_remove_socket — four `_refuted` witnesses show it fails "
+         "when a TURN socket is layered on the removed socket (reproduced on fabricated component states of the real code under ASan; reachability through the "
+         "public API not shown, see DESIGN.md). The model is tied to agent/component.c, conncheck.c, discovery.c on every run by a harness that fabricates "
+         "id-tagged objects in a real NiceAgent, calls the real functions and walks every reference (2400 states quick, compared inside Coq). (b) the one arithmetic clause — timers are re-armed with an interval computed from the next due time — is proved for the keepalive "
          "timer over a model whose constants and statements are checked against agent/conncheck.c on every run: a tick that sends comes back after Ta, a tick "
          "with nothing due sleeps without unsigned wrap, never past the earliest pending keepalive, zero interval only within 1 ms of a due keepalive. Memory "
          "safety, leak freedom and socket release are properties of the C runtime that no Gallina model of this code base can carry: they are NOT proved; real "
@@ -12,7 +21,7 @@ META = dict(
          "black holes, scripted servers in between) in the deterministic simulator built with ASan+UBSan+LSan; oracles: no abort/assertion, no sanitizer report, no "
          "leak at exit, no socket left open, main loop goes back to sleep (spin detector) and idle dispatch rate within the timers' periods.",
     note="trusted: Coq kernel for the small arithmetic theorem; otherwise sanitizers + simulator. Partial by nature: runtime memory behaviour cannot be modelled.",
-    technique="Coq proof of keepalive re-arm arithmetic + sanitizer-instrumented random API programs in the deterministic simulator")
+    technique="Coq proofs over a reference-graph model of component tear-down (differential tie on fabricated states of the real code) and of the keepalive re-arm arithmetic + sanitizer-instrumented random API programs in the deterministic simulator and ICE-TCP life cycles on real loopback agents")
 FINISH = dict(level="proof", trusted=["clang ASan/UBSan/LSan", "harness/sim.c", "lib/tabgen.py::consent_tables (statement shape)"],
               rule="API programs per props/sim_common.py::gen_api_program; non-trivial = a component reaches READY at some point",
               assumptions=["single-threaded use of the agent from one main context", "UDP candidates, TURN over UDP"])
@@ -117,6 +126,8 @@ def run(chk):
     cases = [sc.gen_api_program(chk.rng, i) for i in range(n)]
     sc.run_sim(chk, cases, oracle, "sim-C12", leaks=True, compare=False)
     tcp_lifecycle(chk)
+    import c12_own
+    c12_own.own_tie(chk)
     return chk.finish(**FINISH)
 
 
